@@ -134,7 +134,7 @@ func (uis *unresolvedTraceTagFilter) Analyze(s logical.Schema) (logical.Plan, er
 	}
 	// Build tag filter and create matcher for SIDX
 	var tagFilterMatcher model.TagFilterMatcher
-	var tagFilter logical.TagFilter
+	var tagFilter, spanFilter logical.TagFilter
 	if uis.criteria != nil {
 		var orderByTags []string
 		if ok, indexRule := s.IndexRuleDefined(uis.orderByTag); ok {
@@ -147,6 +147,22 @@ func (uis *unresolvedTraceTagFilter) Analyze(s logical.Schema) (logical.Plan, er
 		if err != nil {
 			return nil, err
 		}
+		// The order-by tag is not stored as a tag of the ordered index, so the index-level filter
+		// above has to skip it and relies on [minVal, maxVal]. That range only expresses range
+		// conditions joined by AND; for anything else the condition is re-checked on the spans.
+		spanFilter = tagFilter
+		if orderByTagNeedsSpanFilter(uis.criteria, uis.orderByTag, false) {
+			spanSkippedTagNames := make([]string, 0, len(skippedTagNames))
+			for _, skippedTagName := range skippedTagNames {
+				if skippedTagName != uis.orderByTag {
+					spanSkippedTagNames = append(spanSkippedTagNames, skippedTagName)
+				}
+			}
+			spanFilter, err = logical.BuildTagFilter(uis.criteria, entityDict, s, s, len(traceIDs) > 0, spanSkippedTagNames...)
+			if err != nil {
+				return nil, err
+			}
+		}
 		// Get the decoder from the execution context (trace module)
 		decoder := uis.ec.(model.TagValueDecoderProvider).GetTagValueDecoder()
 		// Create tag filter matcher for SIDX
@@ -156,12 +172,42 @@ func (uis *unresolvedTraceTagFilter) Analyze(s logical.Schema) (logical.Plan, er
 	plan := uis.selectTraceScanner(ctx, uis.ec, traceIDs, minVal, maxVal, tagFilterMatcher)
 	if uis.criteria != nil {
 		spanIDFilter := buildSpanIDFilter(uis.criteria, uis.spanIDTagName)
-		if len(traceIDs) > 0 || tagFilter != logical.DummyFilter || spanIDFilter != nil {
+		if len(traceIDs) > 0 || spanFilter != logical.DummyFilter || spanIDFilter != nil {
 			// create filter with a projected view
-			plan = newTraceTagFilter(s.ProjTags(ctx.projTagsRefs...), plan, tagFilter, spanIDFilter)
+			plan = newTraceTagFilter(s.ProjTags(ctx.projTagsRefs...), plan, spanFilter, spanIDFilter)
 		}
 	}
 	return plan, err
+}
+
+// orderByTagNeedsSpanFilter reports whether the criteria hold a condition on the order-by tag that
+// the [minVal, maxVal] key range of buildFilter does not enforce: a condition below an OR node
+// (mergeMinMaxBounds widens the range to the union, unbounded as soon as one side does not bound
+// the key) or a condition extractBoundsFromCondition derives no bound from (EQ, NE, IN, ...).
+func orderByTagNeedsSpanFilter(criteria *modelv1.Criteria, orderByTag string, underOr bool) bool {
+	if orderByTag == "" {
+		return false
+	}
+	switch criteria.GetExp().(type) {
+	case *modelv1.Criteria_Condition:
+		cond := criteria.GetCondition()
+		if cond.GetName() != orderByTag {
+			return false
+		}
+		if underOr {
+			return true
+		}
+		condMin, condMax := extractBoundsFromCondition(cond)
+		return condMin == math.MaxInt64 && condMax == math.MinInt64
+	case *modelv1.Criteria_Le:
+		le := criteria.GetLe()
+		if le.GetOp() == modelv1.LogicalExpression_LOGICAL_OP_OR && le.GetLeft() != nil && le.GetRight() != nil {
+			underOr = true
+		}
+		return orderByTagNeedsSpanFilter(le.GetLeft(), orderByTag, underOr) ||
+			orderByTagNeedsSpanFilter(le.GetRight(), orderByTag, underOr)
+	}
+	return false
 }
 
 func (uis *unresolvedTraceTagFilter) selectTraceScanner(ctx *traceAnalyzeContext,
